@@ -248,6 +248,9 @@ def agreement_encodings():
         ("categorical Series of ints, reversed categories", wrap(lambda v: pd.Series(pd.Categorical([v], categories=[1, 2, 3])),
                                                                 lambda v: pd.Series(pd.Categorical([v], categories=[3, 2, 1])),
                                                                 enc_multiclass([1, 2, 3]))),
+        ("float labels in 1x1 ndarrays", wrap(lambda v: np.array([[v]]), lambda v: np.array([[v]]), enc_scalar({0: 0.5, 1: 2.25}))),
+        ("float labels in one-cell DataFrames", wrap(lambda v: pd.DataFrame({"y": [v]}), lambda v: pd.DataFrame({"y": [v]}), enc_scalar({0: 1.0, 1: 0.0}))),
+        ("3 float classes in 1x1 ndarrays", wrap(lambda v: np.array([[v]]), lambda v: np.array([[v]]), enc_multiclass([0.0, 1.0, 2.5]))),
         ("1-element lists", wrap(lambda v: [v], lambda v: [v])),
         ("1-element tuples of strings", wrap(lambda v: (v,), lambda v: (v,), enc_scalar({0: "x", 1: "y"}))),
         ("1-element ndarrays", wrap(lambda v: np.array([v]), lambda v: np.array([v]))),
